@@ -1449,6 +1449,7 @@ class Emitter:
                     return ['%s(u8*)malloc(sizeof(%s) * ((size_t)%s / sizeof(%s))); __CPROVER_assume(%s != 0);' % (asg, cty, av[0], cty, R)]
                 return ['%s(u8*)malloc((size_t)%s); __CPROVER_assume(%s != 0);' % (asg, av[0], R)]
             if nm in ('_ZdlPv', '_ZdaPv', '_ZdlPvm', '_ZdaPvm'):
+                if self.opts.get('no_free'): return ['/* delete elided (--no-free): deallocation is not modelled in this obligation */;']
                 return ['free(%s);' % av[0]]
             if nm == '__CPROVER_assume':
                 return ['__CPROVER_assume(%s);' % av[0]]
@@ -1538,7 +1539,7 @@ static inline void *ir2c_new(size_t n) { void *p = malloc(n ? n : 1); __CPROVER_
 
 def main():
     src = sys.argv[1]; dst = sys.argv[2]
-    opts = {'check_nsw': '--check-nsw' in sys.argv, 'tu': 'tu'}
+    opts = {'check_nsw': '--check-nsw' in sys.argv, 'tu': 'tu', 'no_free': '--no-free' in sys.argv}
     for a in sys.argv[3:]:
         if a.startswith('--tu='): opts['tu'] = a[5:]
         if a.startswith('--lift='): opts.setdefault('lift', set()).update(x for x in a[7:].split(',') if x)
